@@ -22,9 +22,14 @@ inductive Op where
   | concat | lshift | rshift | srshift | slice | mov | smov | amov | ret | gc | circ
   deriving DecidableEq, Repr, Inhabited
 
-/-- `case Lshift, Rshift, Srshift, Slice, Mov, Smov, Amov:` in `Program.GC`:
-"Output is an alias for all non-const inputs". -/
+/-- `case Concat, Lshift, Rshift, Srshift, Slice, Mov, Smov, Amov:` in
+`Program.GC` (since 0c2f851): "Output is an alias for all non-const inputs". -/
 def Op.gcAlias : Op → Bool
+  | .concat | .lshift | .rshift | .srshift | .slice | .mov | .smov | .amov => true
+  | _ => false
+
+/-- The `case` list of `Program.GC` BEFORE 0c2f851 (no `Concat`). -/
+def Op.gcAliasOld : Op → Bool
   | .lshift | .rshift | .srshift | .slice | .mov | .smov | .amov => true
   | _ => false
 
@@ -60,6 +65,22 @@ def Step.reads (s : Step) (v : Nat) : Bool := s.ins.any fun a => !a.const && a.i
 `v` among their non-constant inputs. -/
 def aliasesOf (prog : List Step) (v : Nat) : List Nat :=
   prog.filterMap fun s => if s.op.gcAlias && s.reads v then s.outId else none
+
+/-- The same table before 0c2f851. -/
+def aliasesOfOld (prog : List Step) (v : Nat) : List Nat :=
+  prog.filterMap fun s => if s.op.gcAliasOld && s.reads v then s.outId else none
+
+/-- The values reached by the recursion of the `aliasLive` closure of
+`Program.GC` from value `v`: direct aliases and, recursively, theirs.
+`aliasLive(v)` = "some value of this list is in `set`".  The Go recursion
+terminates because a value is defined before it is used (no alias cycles);
+here `fuel` bounds the depth, and `Program length` is enough
+(`Proofs/Gc.lean: closure_covers`). -/
+def aliasClosure (dir : Nat → List Nat) : Nat → Nat → List Nat
+  | 0, _ => []
+  | fuel + 1, v =>
+    let d := dir v
+    d ++ d.flatMap (aliasClosure dir fuel)
 
 /-- The `set` bit set of `Program.GC`. -/
 abbrev Live := List Nat
@@ -100,24 +121,14 @@ def gcPassWith (al : Nat → List Nat) (prog : List Step) : Option (List Step) :
     if last.op != .ret then none
     else some (gcBack al (last.ins.map (·.id)) prog).1
 
-/-- `Program.GC` as it is: the table of DIRECT aliases through the seven
-operands of its `case` list. -/
-def gcPass (prog : List Step) : Option (List Step) := gcPassWith (aliasesOf prog) prog
+/-- `Program.GC` as it is (0c2f851): an input is dead only if neither it nor
+any direct or indirect alias (through the eight rewiring operands) is live. -/
+def gcPass (prog : List Step) : Option (List Step) :=
+  gcPassWith (aliasClosure (aliasesOf prog) prog.length) prog
 
-/-- Proposed fix (not in /repo): the alias table closed under ALL rewiring
-operands (the seven plus `concat`), transitively.  `fuel` = program length
-bounds the chain length because a value is defined before it is used. -/
-def rewiredFrom (prog : List Step) (v : Nat) : List Nat :=
-  prog.filterMap fun s => if s.op.rewires && s.reads v then s.outId else none
-
-def aliasClosure (prog : List Step) : Nat → Nat → List Nat
-  | 0, _ => []
-  | fuel + 1, v =>
-    let d := rewiredFrom prog v
-    d ++ d.flatMap (aliasClosure prog fuel)
-
-def gcPassFixed (prog : List Step) : Option (List Step) :=
-  gcPassWith (aliasClosure prog prog.length) prog
+/-- `Program.GC` BEFORE 0c2f851: the table of DIRECT aliases through seven
+operands (no `concat`).  Kept for the two negation witnesses. -/
+def gcPassOld (prog : List Step) : Option (List Step) := gcPassWith (aliasesOfOld prog) prog
 
 /-! ## Wire allocator and id rewiring -/
 
